@@ -21,7 +21,7 @@ RULE = ("seeded generator over kernel classes {isotropic scalar sigma, isotropic
         "axis-aligned sxx != syy (general path), correlated |r| < 0.3 / < 0.75 / < 0.925 / >= 0.925 (both signs), "
         "uniform box} x weights {persistence n=1,2,3 and real n, linear_ramp (all three branches), user weight} x "
         "point placement {inside, on a mesh node / region border, outside the region} x skew in {True, False} x "
-        "multi-step HISTORIES on one imager (transform; window moved at equal pixel count by the range setters or by fit on shifted data; transform; pixel_size doubled and restored; transform) with general-path and fast-path kernels, every transform checked against the grid read from the public attributes birth_range / pers_range / pixel_size / resolution at that moment (the Coq run covers the last transform); an input-container class {float64 array, int64 array, nested list of ints, nested list of floats} x {linear_ramp with fractional low/high/start/end, persistence n in {1, 2, 1.5}, user callable} on integer-valued points; resolutions {2x2, 2x3, 3x2} (thorough: up to 3x4 / 4x3) with 1-2 points (thorough: up to 4), dyadic and "
+        "NEGATIVE weights of three kinds (pair below the diagonal under persistence with odd n, linear_ramp with low < 0, signed user weight; spec = signed sum of weight x mass); collections through transform(..., n_jobs=1/2) - the joblib branch - with skew=False and True, every returned image checked (a fifth of the plain cases also pass n_jobs=1); multi-step HISTORIES on one imager (transform; window moved at equal pixel count by the range setters or by fit on shifted data; transform; pixel_size doubled and restored; transform) with general-path and fast-path kernels, every transform checked against the grid read from the public attributes birth_range / pers_range / pixel_size / resolution at that moment (the Coq run covers the last transform); an input-container class {float64 array, int64 array, nested list of ints, nested list of floats} x {linear_ramp with fractional low/high/start/end, persistence n in {1, 2, 1.5}, user callable} on integer-valued points; resolutions {2x2, 2x3, 3x2} (thorough: up to 3x4 / 4x3) with 1-2 points (thorough: up to 4), dyadic and "
         "random-double coordinates; the Coq model run covers isotropic / axis-aligned / uniform kernels, the "
         "correlated Gaussian is covered by the independent predicate only (verdict skip); a case is non-trivial "
         "when the image has two pixels that differ by more than 1e-9 and a pixel above 1e-9 in magnitude; "
@@ -50,6 +50,11 @@ COQ_TIMEOUT = 600
 
 
 # ---- user weight (a plain Python function, handed to the imager as a callable) ---------------
+def user_weight_signed(birth, pers):
+    """A user weight that takes both signs."""
+    return 0.5 * pers - birth + 0.125
+
+
 def user_weight(birth, pers, a=0.25, c=0.5):
     return a + c * pers + birth * birth
 
@@ -126,7 +131,8 @@ def _case(rng, kcls, wcls, place, res, npts, dyadic, skew):
         pts.append([b, (p + b) if skew else p])
     return {"cls": "%s/%s/%s" % (kcls, wcls, place), "birth_range": br, "pers_range": pr, "pixel_size": ps,
             "kernel": _kernel(rng, kcls), "weight": _weight(rng, wcls), "skew": skew, "dgm": pts,
-            "container": "list_float" if rng.random() < 0.25 else "f64"}
+            "container": "list_float" if rng.random() < 0.25 else "f64",
+            "n_jobs": 1 if rng.random() < 0.2 else None}
 
 
 KCLS_COQ = ["iso_scalar", "iso_matrix", "axis", "uniform"]
@@ -225,6 +231,76 @@ def _history_case(rng, kcls, wcls, variant):
             "dgm": last, "history": hist, "container": "f64"}
 
 
+NEG_KERNELS = ["uniform", "iso_scalar", "corr_mid", "axis", "uniform", "iso_matrix", "corr_top", "uniform", "iso_scalar"]
+
+
+def _neg_case(rng, kind, kcls):
+    """Pairs of NEGATIVE weight: below the diagonal under persistence with odd n, linear_ramp with low < 0,
+    a signed user weight.  The spec is still the signed sum of weight x mass."""
+    res = rng.choice([(2, 2), (2, 3), (3, 2)])
+    ps = rng.choice([0.5, 0.25, 1.0])
+    blo = _dy(rng, -1, 1)
+    plo = -rng.randint(1, res[1]) * ps + rng.choice([0.0, ps / 2])       # the window reaches below persistence 0
+    skew = rng.random() < 0.6
+    base = _case(rng, kcls, "pers_nat", "inside", res, 1, True, skew)
+
+    def pt(p):
+        b = blo + rng.randint(0, res[0] * 8) * ps / 8
+        return [b, (b + p) if skew else p]
+    if kind == "pers_odd":
+        w = {"type": "persistence", "n": float(rng.choice([1, 3]))}
+        pts = [pt(-rng.randint(1, 8) * ps / 8)]
+    elif kind == "ramp_neg":
+        w = {"type": "linear_ramp", "low": -rng.choice([0.75, 0.5, 1.25]), "high": rng.choice([0.5, -0.125, 1.0]),
+             "start": rng.choice([0.0, 0.25, -0.25]), "end": rng.choice([1.0, 0.75])}
+        pts = [pt(w["start"] - rng.randint(1, 6) * ps / 8)]              # weight = low < 0
+        if rng.random() < 0.5:
+            pts.append(pt(w["start"] + 0.0625))                          # just inside the ramp, still negative
+    else:
+        w = {"type": "user_signed"}
+        pts = [[blo + res[0] * ps, 0.0]]                                 # weight 0.5 p - b + 0.125
+        b = pts[0][0]
+        pts[0] = [b, (b - 0.25) if skew else -0.25]
+    if rng.random() < 0.6:
+        pts.insert(rng.randint(0, len(pts)), pt(rng.randint(1, 8) * ps / 8 + max(0.0, w.get("end", 0.0))))   # a positive one too
+    return {"cls": "negweight/%s/%s" % (kind, kcls), "birth_range": [blo, blo + res[0] * ps],
+            "pers_range": [plo, plo + res[1] * ps], "pixel_size": ps, "kernel": base["kernel"], "weight": w,
+            "skew": skew, "dgm": pts, "container": "f64"}
+
+
+def negweight_cases(rng, n):
+    kinds = ["pers_odd", "ramp_neg", "user_signed"]
+    return [_neg_case(rng, kinds[i % 3], NEG_KERNELS[i % len(NEG_KERNELS)]) for i in range(n)]
+
+
+def _parallel_case(rng, i):
+    """A collection through transform(..., n_jobs=1/2) - the joblib branch - mostly with skew=False."""
+    kcls = ["uniform", "iso_scalar", "axis", "corr_mid", "iso_matrix", "uniform"][i % 6]
+    wcls = ["pers_nat", "ramp", "user"][i % 3]
+    res = rng.choice([(2, 2), (2, 3), (3, 2)])
+    skew = (i % 3 == 2)
+    base = _case(rng, kcls, wcls, "inside", res, 1, True, skew)
+    dgms = [_case(rng, kcls, wcls, "inside", res, rng.randint(1, 2), True, skew) for _ in range(rng.randint(2, 3))]
+    # re-centre every diagram on base's window (birth >= 0.25 so that a second skew conversion shows)
+    out = []
+    for g in dgms:
+        pts = []
+        for b, d in g["dgm"]:
+            p = (d - b) if skew else d
+            b2 = b - g["birth_range"][0] + base["birth_range"][0]
+            p2 = p - g["pers_range"][0] + base["pers_range"][0]
+            pts.append([b2, (b2 + p2) if skew else p2])
+        out.append(pts)
+    c = {k: base[k] for k in ("birth_range", "pers_range", "pixel_size", "kernel", "weight")}
+    c.update(cls="parallel/n_jobs=%d/skew=%s/%s" % ([1, 2][i % 2], skew, kcls), skew=skew, dgm=out[-1], container="f64",
+             history=[{"op": "transform_coll", "dgms": out, "n_jobs": [1, 2][i % 2]}])
+    return c
+
+
+def parallel_cases(rng, n):
+    return [_parallel_case(rng, i) for i in range(n)]
+
+
 def history_cases(rng, n):
     return [_history_case(rng, HIST_KERNELS[i % len(HIST_KERNELS)], ["pers_nat", "ramp", "user", "pers_nat"][i % 4],
                           "setter" if i % 2 == 0 else "fit") for i in range(n)]
@@ -232,7 +308,8 @@ def history_cases(rng, n):
 
 def search_generate(rng, n):
     """Stream for the failing-input search: the container class first, then the general classes."""
-    cases = history_cases(rng, max(8, n // 10)) + container_cases(rng, reps=max(1, n // 60))
+    cases = (history_cases(rng, max(8, n // 10)) + negweight_cases(rng, max(9, n // 12)) +
+             parallel_cases(rng, max(6, n // 20)) + container_cases(rng, reps=max(1, n // 60)))
     while len(cases) < n:
         cases.append(_case(rng, rng.choice(KCLS_COQ + KCLS_CORR), rng.choice(WCLS), rng.choice(PLACES),
                            rng.choice([(2, 2), (2, 3), (3, 2), (3, 4)]), rng.randint(1, 4),
@@ -243,6 +320,8 @@ def search_generate(rng, n):
 def generate(rng, tier):
     cases = container_cases(rng, reps=1 if tier == "quick" else 6)
     cases += history_cases(rng, 8 if tier == "quick" else 96)
+    cases += negweight_cases(rng, 9 if tier == "quick" else 108)
+    cases += parallel_cases(rng, 6 if tier == "quick" else 60)
     reps = 1 if tier == "quick" else 4
     for rep in range(reps):
         for kcls in KCLS_COQ + KCLS_CORR:
@@ -314,6 +393,8 @@ def make_imager(c):
         weight, wp = images_weights.persistence, {"n": w["n"]}
     elif w["type"] == "linear_ramp":
         weight, wp = images_weights.linear_ramp, {"low": w["low"], "high": w["high"], "start": w["start"], "end": w["end"]}
+    elif w["type"] == "user_signed":
+        weight, wp = user_weight_signed, {}
     else:
         weight, wp = user_weight, {}
     return PersistenceImager(birth_range=tuple(c["birth_range"]), pers_range=tuple(c["pers_range"]),
@@ -342,7 +423,7 @@ def public_grid(im):
 
 def history_of(c):
     """A case is a history of operations on ONE imager; a plain case is the one-step history."""
-    return c.get("history") or [{"op": "transform", "dgm": c["dgm"]}]
+    return c.get("history") or [{"op": "transform", "dgm": c["dgm"], "n_jobs": c.get("n_jobs")}]
 
 
 def impl_run(cases):
@@ -359,13 +440,31 @@ def impl_run(cases):
                 if op == "transform":
                     d = make_input(st["dgm"], cont)
                     d0 = copy.deepcopy(d)
-                    img = np.asarray(im.transform(d, skew=c["skew"]))
+                    nj = st.get("n_jobs", c.get("n_jobs"))
+                    img = np.asarray(im.transform(d, skew=c["skew"]) if nj is None else
+                                     im.transform(d, skew=c["skew"], n_jobs=nj))
                     bp, pp = public_grid(im)
                     steps.append({"dgm": st["dgm"], "bp": bp, "pp": pp,
                                   "res": [int(x) for x in im.resolution], "shape": [int(x) for x in img.shape],
                                   "img": [[float(v) for v in row] for row in img] if img.ndim == 2 else None,
                                   "input_unchanged": bool(np.array_equal(np.asarray(d), np.asarray(d0)) and type(d) is type(d0)
                                                           and getattr(d, "dtype", None) == getattr(d0, "dtype", None))})
+                elif op == "transform_coll":
+                    # a collection through the public transform (joblib branch when n_jobs is not None):
+                    # one step record per returned image, in order
+                    ds = [make_input(g, cont) for g in st["dgms"]]
+                    ds0 = copy.deepcopy(ds)
+                    nj = st.get("n_jobs")
+                    r = im.transform(ds, skew=c["skew"]) if nj is None else im.transform(ds, skew=c["skew"], n_jobs=nj)
+                    if len(r) != len(ds):
+                        raise ValueError("transform returned %d images for %d diagrams" % (len(r), len(ds)))
+                    bp, pp = public_grid(im)
+                    for g, d, d0, img in zip(st["dgms"], ds, ds0, r):
+                        img = np.asarray(img)
+                        steps.append({"dgm": g, "bp": bp, "pp": pp,
+                                      "res": [int(x) for x in im.resolution], "shape": [int(x) for x in img.shape],
+                                      "img": [[float(v) for v in row] for row in img] if img.ndim == 2 else None,
+                                      "input_unchanged": bool(np.array_equal(np.asarray(d), np.asarray(d0)))})
                 elif op == "birth_range":
                     im.birth_range = tuple(st["val"])
                 elif op == "pers_range":
@@ -436,6 +535,8 @@ def _weight_ref(w, b, p):
         if p > w["end"]:
             return w["high"]
         return w["low"] + (w["high"] - w["low"]) * (p - w["start"]) / (w["end"] - w["start"])
+    if w["type"] == "user_signed":
+        return 0.5 * p - b + 0.125
     return 0.25 + 0.5 * p + b * b
 
 
@@ -462,7 +563,7 @@ def predicate(c, o):
         return False, "unexpected-error: %s" % o
     steps = o.get("steps") or [o]
     for n, st in enumerate(steps):
-        tag = "" if len(steps) == 1 else " (transform #%d of the history)" % (n + 1)
+        tag = "" if len(steps) == 1 else " (image #%d of the history)" % (n + 1)
         bp, pp = st["bp"], st["pp"]
         if st["img"] is None or st["shape"] != [len(bp) - 1, len(pp) - 1] or st["shape"] != st["res"]:
             return False, "shape: image %s, grid %dx%d, resolution %s (axes are (birth, persistence))%s" % (
@@ -504,6 +605,8 @@ def coq_weight(w):
         return "(persistence_real %s)" % R(n)
     if w["type"] == "linear_ramp":
         return "(linear_ramp %s %s %s %s)" % (R(w["low"]), R(w["high"]), R(w["start"]), R(w["end"]))
+    if w["type"] == "user_signed":
+        return "(fun b p : R => %s * p - b + %s)" % (R(0.5), R(0.125))
     return "(fun b p : R => %s + %s * p + b * b)" % (R(0.25), R(0.5))
 
 
@@ -562,6 +665,12 @@ def coq_judge(cases, outs, results):
 def shrink_candidates(c):
     if c.get("history"):
         h = c["history"]
+        if len(h) == 1 and h[0]["op"] == "transform_coll":
+            g = h[0]["dgms"]
+            for i in range(len(g)):
+                if len(g) > 1:
+                    d = dict(c); d["history"] = [dict(h[0], dgms=g[:i] + g[i + 1:])]; d["dgm"] = d["history"][0]["dgms"][-1]; yield d
+            return
         # drop one non-final operation at a time (the last transform stays)
         for i in range(len(h) - 1):
             d = dict(c); d["history"] = h[:i] + h[i + 1:]; yield d
